@@ -259,8 +259,10 @@ fn needs_rebuild(lalrpop_file: &Path, rs_file: &Path) -> io::Result<bool> {
                 };
             }
 
-            Ok(hash_str.trim() != hash_file(lalrpop_file)?
-                || version_str.trim() != LALRPOP_VERSION_HEADER)
+            // The header lines have to be exactly what `process_file_into` writes; a padded
+            // or otherwise altered header is not ours.
+            Ok(hash_str != format!("{}\n", hash_file(lalrpop_file)?)
+                || version_str != format!("{LALRPOP_VERSION_HEADER}\n"))
         }
         Err(e) => match e.kind() {
             io::ErrorKind::NotFound => Ok(true),
